@@ -164,8 +164,76 @@ def inputs_untouched(bands=0, R=3, C=3, cap=60, block=()):
     return col.result(stats, functions=info.get('fn', {}), bounds={'image': [bands or 1, R, C], 'mask': 'centre pixel free in {valid, nodata, invalid}, others valid'})
 
 
+def cbca_inputs(H=3, W=3, subpix=1, cap=60, block=()):
+    """CrossBasedCostAggregation.computes_cross_supports (masking, 3x3 median prefilter, NaN -> inf) on symbolic images and masks: the
+    caller's image datasets keep their samples and masks (the kernel computing the arms is a stub: its result is not the subject)"""
+    import xarray as xr
+    from vf import symnp as S, instr
+    from vf.explore import EX, explore
+    from vf.hutil import Collector
+    from vf.harness import mc
+    from pandora import aggregation
+    import pandora.aggregation.cbca as CB
+    mc.install_stubs(S)
+    col = Collector(cap_s=cap)
+    info = {}
+    S.MODE['exact'] = True
+    CB.cross_support = lambda image, la, it: S.SymArray(np.zeros(tuple(image.shape) + (4,), np.int16), 'i2')
+
+    def h():
+        shapes = {}
+        L, li, lmk = mc.make_image(xr, S, EX, 'l', H, W, mask='sym', shapes=shapes, vmax=50)
+        R, ri, rmk = mc.make_image(xr, S, EX, 'r', H, W, mask='sym', shapes=shapes, vmax=50)
+        col.shapes = shapes
+        li0, ri0, lm0, rm0 = li.copy(), ri.copy(), lmk.copy(), rmk.copy()
+        cv = xr.Dataset({"cost_volume": (["row", "col", "disp"], np.zeros((H, W, 1), np.float32))}, coords={"row": np.arange(H), "col": np.arange(W), "disp": [0.0]})
+        cv.attrs = {"offset_row_col": 0, "subpixel": subpix, "cmax": 10, "type_measure": "min", "window_size": 1}
+        ag = aggregation.AbstractAggregation(**{"aggregation_method": "cbca", "cbca_intensity": 5.0, "cbca_distance": 2})
+        ex = {'cbca_inputs': True, 'H': H, 'W': W, 'subpix': subpix}
+        try:
+            ag.computes_cross_supports(L, R, cv)
+        except S.Unsupported:
+            raise
+        except Exception as e:      # noqa
+            col.path_exception(e, label='p%d' % len(EX.trace), extra=ex); return
+        props = [("caller-left-image-untouched", z3.And(*[S.term_eq(a, b, 'x4') for a, b in zip(L["im"].data._a.flat, li0._a.flat)])),
+                 ("caller-right-image-untouched", z3.And(*[S.term_eq(a, b, 'x4') for a, b in zip(R["im"].data._a.flat, ri0._a.flat)])),
+                 ("caller-masks-untouched", z3.And(*[S.term_eq(a, b, 'i2') for a, b in list(zip(L["msk"].data._a.flat, lm0._a.flat)) + list(zip(R["msk"].data._a.flat, rm0._a.flat))]))]
+        col.check_path(props, label='p%d' % len(EX.trace), extra=ex,
+                       witnesses=[("a-right-pixel-is-masked", z3.Or(*[e_.t != 0 for e_ in rm0._a.flat]))])
+        info['fn'] = instr.fn_hash(CB.CrossBasedCostAggregation.computes_cross_supports)
+    res, stats = explore(h, max_paths=64)
+    return col.result(stats, functions=info.get('fn', {}), bounds={'image': [H, W], 'masks': 'symbolic 4-valued, both images', 'subpix': subpix},
+                      stubs=['cbca.cross_support = zeros (the arms are C11\'s subject)', 'scipy zoom / binary_dilation models of vf.harness.mc'])
+
+
 def replay(cex):
     x = cex['extra']; inp = cex['inputs']
+    if x.get('cbca_inputs'):
+        import xarray as xr
+        from pandora import aggregation
+        H, W = x['H'], x['W']
+
+        def mk(n):
+            d = xr.Dataset({"im": (["row", "col"], np.array(inp[n], np.float32).reshape(H, W)), "msk": (["row", "col"], np.array(inp[n + 'msk'], np.int16).reshape(H, W))},
+                           coords={"row": np.arange(H), "col": np.arange(W)})
+            d.attrs = {"valid_pixels": 0, "no_data_mask": 1, "crs": None, "transform": None, "no_data_img": -9999}
+            return d
+        L, R = mk('l'), mk('r')
+        L0, R0 = L.copy(deep=True), R.copy(deep=True)
+        cv = xr.Dataset({"cost_volume": (["row", "col", "disp"], np.zeros((H, W, 1), np.float32))}, coords={"row": np.arange(H), "col": np.arange(W), "disp": [0.0]})
+        cv.attrs = {"offset_row_col": 0, "subpixel": x['subpix'], "cmax": 10, "type_measure": "min", "window_size": 1}
+        try:
+            aggregation.AbstractAggregation(**{"aggregation_method": "cbca", "cbca_intensity": 5.0, "cbca_distance": 2}).computes_cross_supports(L, R, cv)
+        except BaseException as e:      # noqa
+            return {'violates': True, 'detail': 'computes_cross_supports raised %r' % (e,)}
+        bad = []
+        for nm, a, b in (('left', L, L0), ('right', R, R0)):
+            if not np.array_equal(a["im"].data, b["im"].data, equal_nan=True) or np.isnan(a["im"].data).any():
+                bad.append('computes_cross_supports modified the caller %s image: %s -> %s (mask %s)' % (nm, b["im"].data.tolist(), a["im"].data.tolist(), b["msk"].data.tolist()))
+            if not np.array_equal(a["msk"].data, b["msk"].data):
+                bad.append('caller %s mask modified' % nm)
+        return {'violates': bool(bad), 'detail': '; '.join(bad)[:600]}
     if x.get('inputs'):
         import xarray as xr
         import pandora.img_tools as IT
